@@ -92,9 +92,8 @@ def run(ctx):
     if thorough:
         runs += [("C09_mc_code_small.cfg", 8, None, "as implemented, the other archives of <= 6 entries, every order"),
                  ("C09_mc_fixed_small.cfg", 8, None, "repaired design, the other archives of <= 6 entries, every order"),
-                 ("C09_mc_code_mid.cfg", 8, None, "as implemented, archives of 7 entries, every order"),
-                 ("C09_mc_code_big.cfg", 8, None, "as implemented, an archive of 8 entries (index of 2 images), every order"),
-                 ("C09_sim_big.cfg", 4, "sim", "as implemented, all archives of 8 entries, 12000 random orders"),
+                 ("C09_mc_code_mid.cfg", 8, None, "as implemented, 13 archives of 7 entries, every order"),
+                 ("C09_sim_big.cfg", 4, "sim", "as implemented, all archives of 7 and 8 entries, 16000 random orders"),
                  ("C09_live.cfg", 4, None, "termination (liveness) on the smallest archives")]
 
     def mc_run(r):
@@ -106,7 +105,7 @@ def run(ctx):
                 raise vlib.ToolError("TarImport.tla no longer shows: %s; update spec, finding and check together" % expect)
             return None
         if expect == "sim":
-            return ctx.tlc("TarImportMC", cfg, workers=workers, timeout=3000, label=label, simulate="num=3000", depth=200,
+            return ctx.tlc("TarImportMC", cfg, workers=workers, timeout=3000, label=label, simulate="num=4000", depth=200,
                            extra=["-seed", str(ctx.seed)])
         return ctx.tlc("TarImportMC", cfg, workers=workers, timeout=3000, label=label)
     with concurrent.futures.ThreadPoolExecutor(max_workers=3 if thorough else 5) as ex:
